@@ -256,6 +256,10 @@ fn fixed_positive_cases() -> Vec<Case> {
             "thirteen-parameters",
         ),
         mk("macro sk(u0,u1,u2,u3,u4,u5,u6,u7,u8,u9,u10) -> mov dx,u10 mov bx,u1 <-", "sk(0,21,0,0,0,0,0,0,0,0,30)", "mov dx,30 mov bx,21", "eleventh-parameter-only"),
+        // `_` is an ordinary parameter name (only by convention the name of "no parameter")
+        mk("macro ld(_) -> mov ax,_ add bx,_ <-", "ld(7)", "mov ax,7 add bx,7", "underscore-parameter-used"),
+        mk("macro l2(_,v) -> mov ax,_ mov bx,v <-", "l2(7,8)", "mov ax,7 mov bx,8", "underscore-parameter-used"),
+        mk("macro in2(p) -> inc p <-\nmacro o2(_) -> in2 (_) <-", "o2(cx)", "inc cx", "underscore-parameter-forwarded"),
         // unused parameters before used ones
         mk("macro un(unused,dst,v) -> mov dst,v <-", "un(9,bx,4660)", "mov bx,4660", "unused-leading-parameter"),
         // names differing only in case are different names: a label / a second parameter next to a parameter
